@@ -275,29 +275,18 @@ theorem copy_leaves_source_untouched {h h' : Heap} {x c : Nat} (hg : Good2 h) (h
   obtain ⟨_, w', st', inv⟩ := copy_cinv hg hc
   exact inv.frame
 
-/-- **the copy is isomorphic to the source.** The map "`i`-th element of the source's document order ↦ `i`-th object allocated" is a
-    bijection between the two document orders (same length; the `i`-th element of the copy's document order IS the `i`-th object
-    allocated) that preserves the order, the class, the text and the parent: the parent of the clone of `d` is the clone of the parent
-    of `d`, for every element `d` of the subtree other than its root (whose clone has no parent, `copy_is_detached_and_fresh`).
-    In a consistent forest (`copy_keeps_consistent`) the children list of an element is the list of the elements that name it as parent,
-    in document order (`views_are_preorder`), so the children lists correspond under the same map; that corollary
-    (`h'.kids (φ d) = (h.kids d).map φ`) is not spelled out as a theorem. -/
+/-- **the copy is isomorphic to the source.** There is one map `φ` — "the element at index `j` of the source's document order ↦ the
+    `j`-th object the call allocates" — such that the document order of the clone is the document order of the source mapped by `φ`
+    (so `φ` is an order-preserving bijection between the two pre-orders: same length, element for element), every element's clone has
+    its class and its text, the children list of the clone of `d` is the children list of `d` mapped by `φ`, and the parent of the clone
+    of `d` is the clone of the parent of `d` (for every element other than the root of the copied subtree, whose clone has no parent:
+    `copy_is_detached_and_fresh`) -/
 theorem copy_is_isomorphic {h h' : Heap} {x c : Nat} (hg : Good2 h) (hc : copy h x = .ok (h', c)) :
-    (docOrder h' c).length = (docOrder h x).length ∧
-    (∀ i d, (docOrder h x)[i]? = some d →
-      (docOrder h' c)[i]? = some (h.next + i) ∧ h'.kind (h.next + i) = h.kind d ∧ h'.val (h.next + i) = h.val d) ∧
-    (∀ i d, 1 ≤ i → (docOrder h x)[i]? = some d →
-      ∃ π j, h.parent d = some π ∧ (docOrder h x)[j]? = some π ∧ j < i ∧ h'.parent (h.next + i) = some (h.next + j)) := by
-  refine ⟨?_, ?_, copy_parents hg hc⟩
-  · obtain ⟨rfl, w', st', inv⟩ := copy_cinv hg hc
-    exact (cinv_final inv).2.2.2
-  · obtain ⟨rfl, w', st', inv⟩ := copy_cinv hg hc
-    obtain ⟨_, hroot, hdoc, hlen⟩ := cinv_final inv
-    intro i d hi
-    have hlt : i < (docOrder h x).length := (List.getElem?_eq_some_iff.mp hi).1
-    refine ⟨?_, inv.img i d hi⟩
-    rw [hdoc, List.getElem?_range' (by rw [← inv.len]; exact hlt)]
-    simp
+    ∃ φ : Nat → Nat, (∀ j k, (docOrder h x)[j]? = some k → φ k = h.next + j) ∧
+      docOrder h' c = (docOrder h x).map φ ∧
+      (∀ d, d ∈ docOrder h x → h'.kind (φ d) = h.kind d ∧ h'.val (φ d) = h.val d ∧ h'.kids (φ d) = (h.kids d).map φ) ∧
+      (∀ d, d ∈ docOrder h x → d ≠ x → ∃ π, h.parent d = some π ∧ π ∈ docOrder h x ∧ h'.parent (φ d) = some (φ π)) :=
+  copy_iso hg hc
 
 /-- **every finite history of editing calls, copies and constructor calls keeps the forest consistent** — histories may interleave
     them in any way, in particular move elements between an original and its copy -/
@@ -327,6 +316,8 @@ example : ((copy wParsed 0).toOption.map fun r => (docOrder r.1 r.2, r.1.kids 7,
 example : ((copy wParsed 0).toOption.map fun r => (r.1.parent 6, r.1.kids 1, r.1.kids 0)) = some (none, [2, 3], [1, 5]) := by decide
 example : ((copy wParsed 0).toOption.map fun r => ((docOrder wParsed 0).map wParsed.parent, (docOrder r.1 r.2).map r.1.parent))
     = some ([none, some 0, some 1, some 1, some 3, some 0], [none, some 6, some 7, some 7, some 9, some 6]) := by decide
+example : ((copy wParsed 0).toOption.map fun r => ((docOrder wParsed 0).map wParsed.kids, (docOrder r.1 r.2).map r.1.kids))
+    = some ([[1, 5], [2, 3], [], [4], [], []], [[7, 11], [8, 9], [], [10], [], []]) := by decide
 example : ((run2 wParsed [.copy 3, .edit (.append 1 (.node 7)), .edit (.insert 6 0 [.node 2]), .copy 6, .alloc .tag [],
     .edit (.append 10 (.node 8)), .copy 0, .edit (.extract 3), .copy 4]).toOption.map
       fun h => (h.kids 1, h.kids 6, docOrder h 10, h.parent 8)) = some ([7], [2], [10, 8, 9], some 10) := by decide
